@@ -293,8 +293,8 @@ fn main() {
     let s2 = set.clone();
     let pairs = set.into_iter().flat_map(move |a| s2.clone().into_iter().map(move |b| Case::Pair { a, b }));
     ctx.exhaustive("boundary-pairs", "f80-case", &format!("all {}x{} ordered pairs of the boundary set", n, n), true, pairs, run_case);
-    ctx.prop_split("random-pairs", "f80-case", ctx.n(50_000, 2_000_000), ctx.parts(), (leaf(), leaf()).prop_map(|(a, b)| Case::Pair { a, b }).boxed(), run_case);
-    ctx.prop_split("chains", "f80-case", ctx.n(20_000, 800_000), ctx.parts(), (prop::collection::vec(leaf(), 8), prop::collection::vec(0u8..4, 7)).prop_map(|(leaves, ops)| Case::Chain { leaves, ops }).boxed(), run_case);
+    ctx.prop_split("random-pairs", "f80-case", ctx.n(50_000, 40_000_000), ctx.parts(), (leaf(), leaf()).prop_map(|(a, b)| Case::Pair { a, b }).boxed(), run_case);
+    ctx.prop_split("chains", "f80-case", ctx.n(20_000, 12_000_000), ctx.parts(), (prop::collection::vec(leaf(), 8), prop::collection::vec(0u8..4, 7)).prop_map(|(leaves, ops)| Case::Chain { leaves, ops }).boxed(), run_case);
     let _ = SplitMix(0);
     ctx.finish();
 }
